@@ -8,15 +8,8 @@
    [matching dt interp extrap] is the round-trip law for 0 < sample_at < dt. *)
 From Coq Require Import ZArith Reals Bool Lra Lia.
 From Inferno Require Import Base.Num Base.NumR Gen.Interpolation Gen.Extrapolation.
+From Inferno Require Export C02.Matching.
 Open Scope R_scope.
-
-Definition interp_t := R -> R -> R -> R -> R.          (* prev next sample_at step_time *)
-Definition extrap_t := R -> R -> R -> R -> R -> R * R. (* sample sample_at prev next step_time *)
-
-(* the round-trip law, for sample times strictly inside the step *)
-Definition matching (dt : R) (interp : interp_t) (extrap : extrap_t) : Prop :=
-  forall x sa p n, 0 < sa < dt ->
-    interp (fst (extrap x sa p n dt)) (snd (extrap x sa p n dt)) sa dt = x.
 
 (* ------------------------------------------------------------------ previous / next / nearest *)
 Lemma rt_previous_previous dt : matching dt (interp_previous RN) (extrap_previous RN).
@@ -112,14 +105,42 @@ Qed.
 
 (* ------------------------------------------------------------------ mismatched pairs do NOT round-trip
    (so [matching] is not a vacuous or trivially true predicate) *)
-Lemma rt_previous_next_refuted : ~ matching 1 (interp_previous RN) (extrap_next RN).
+Lemma mismatch_previous_next_no_roundtrip : ~ matching 1 (interp_previous RN) (extrap_next RN).
 Proof.
   intros H. specialize (H 1 (/ 2) 0 0 ltac:(lra)). unfold interp_previous, extrap_next in H. cbn [fst snd] in H. lra.
 Qed.
-Lemma rt_expdecay_neighbors_refuted : ~ matching 1 (fun p n sa st => interp_expdecay RN p n sa st 1) (extrap_neighbors RN).
+Lemma mismatch_expdecay_neighbors_no_roundtrip : ~ matching 1 (fun p n sa st => interp_expdecay RN p n sa st 1) (extrap_neighbors RN).
 Proof.
   intros H. specialize (H 1 (/ 2) 0 0 ltac:(lra)).
   unfold interp_expdecay, extrap_neighbors in H. rn_simpl. cbn [fst snd] in H.
   assert (Hlt : Rtrigo_def.exp (- / 2 / 1) < Rtrigo_def.exp 0) by (apply exp_increasing; lra).
   rewrite exp_0 in Hlt. lra.
+Qed.
+
+(* ------------------------------------------------------------------ all shipped matching pairs at once *)
+Theorem shipped_pairs_matching (dt tc rc : R) (adjust : option (R -> R)) : 0 < dt ->
+  matching dt (interp_previous RN) (extrap_previous RN) /\
+  matching dt (interp_next RN) (extrap_next RN) /\
+  matching dt (interp_nearest RN) (extrap_nearest RN) /\
+  matching dt (interp_previous RN) (extrap_neighbors RN) /\
+  matching dt (interp_next RN) (extrap_neighbors RN) /\
+  matching dt (interp_nearest RN) (extrap_neighbors RN) /\
+  matching dt (interp_linear RN) (extrap_neighbors RN) /\
+  matching dt (interp_linear RN) (fun x sa p n st => extrap_linear_forward RN x sa p n st adjust) /\
+  matching dt (interp_linear RN) (fun x sa p n st => extrap_linear_backward RN x sa p n st adjust) /\
+  matching dt (fun p n sa st => interp_expdecay RN p n sa st tc) (fun x sa p n st => extrap_expdecay RN x sa p n st tc) /\
+  matching dt (fun p n sa st => interp_expratedecay RN p n sa st rc) (fun x sa p n st => extrap_expratedecay RN x sa p n st rc).
+Proof.
+  intros Hdt. repeat match goal with |- _ /\ _ => split end.
+  - apply rt_previous_previous.
+  - apply rt_next_next.
+  - apply rt_nearest_nearest; exact Hdt.
+  - apply rt_previous_neighbors.
+  - apply rt_next_neighbors.
+  - apply rt_nearest_neighbors.
+  - apply rt_linear_neighbors; exact Hdt.
+  - apply rt_linear_forward; exact Hdt.
+  - apply rt_linear_backward; exact Hdt.
+  - apply rt_expdecay.
+  - apply rt_expratedecay.
 Qed.
